@@ -433,6 +433,47 @@ func (bs *boolSummer) evalBool(fn *ssa.Function, v ssa.Value, cond lits, pe map[
 			}
 		}
 	}
+	// x == nil / x != nil where x is merged from several assignments (err set in the arms of a switch, tested
+	// afterwards): the value x has on this path decides, and a freshly made error is never nil
+	if bo, isB := v.(*ssa.BinOp); isB && (bo.Op == token.EQL || bo.Op == token.NEQ) && (isNilConst(bo.X) || isNilConst(bo.Y)) {
+		other := bo.X
+		if isNilConst(other) {
+			other = bo.Y
+		}
+		resolved := false
+		for hop := 0; hop < 6; hop++ {
+			if phi, isPhi := other.(*ssa.Phi); isPhi && pe != nil {
+				if e, okE := pe[phi]; okE {
+					other, resolved = e, true
+					continue
+				}
+			}
+			if mi, isMI := other.(*ssa.MakeInterface); isMI {
+				other = mi.X
+				continue
+			}
+			break
+		}
+		if resolved {
+			switch {
+			case isNilConst(other):
+				return []boolCase{{cond, bo.Op == token.EQL}}
+			case freshError(other):
+				return []boolCase{{cond, bo.Op == token.NEQ}}
+			default:
+				a, _ := normValueName(other, env)
+				atom := a + "==nil"
+				var out []boolCase
+				if c := cond.with(atom, true); c != nil {
+					out = append(out, boolCase{c, bo.Op == token.EQL})
+				}
+				if c := cond.with(atom, false); c != nil {
+					out = append(out, boolCase{c, bo.Op != token.EQL})
+				}
+				return out
+			}
+		}
+	}
 	atom, positive := normAtom(v, env)
 	var out []boolCase
 	if c := cond.with(atom, positive); c != nil {
@@ -1027,4 +1068,129 @@ func cycleOf(b *ssa.BasicBlock) map[*ssa.BasicBlock]bool {
 
 func blocksContain(bs map[*ssa.BasicBlock]bool, in ssa.Instruction) bool {
 	return in != nil && bs[in.Block()]
+}
+
+// freshError: v is the result of a constructor that never returns nil.
+func freshError(v ssa.Value) bool {
+	call, ok := v.(*ssa.Call)
+	if !ok {
+		return false
+	}
+	switch calleeName(call) {
+	case "fmt.Errorf", "errors.New":
+		return true
+	}
+	return false
+}
+
+// gatedBySuccess: every return of helper g that reports success (a nil last result of type error) lies on a path on
+// which errVal — the error of some step inside g — was nil. Decided structurally where a test of errVal guards the
+// return, else over the path summaries of g (an error variable set in the arms of a switch and tested afterwards).
+func gatedBySuccess(li *LockInfo, g *ssa.Function, errVal ssa.Value) bool {
+	if g == nil || g.Blocks == nil || errVal == nil {
+		return false
+	}
+	structural, n := true, 0
+	eachInstr(g, func(in ssa.Instruction) {
+		ret, ok := in.(*ssa.Return)
+		if !ok || isRecoverReturn(ret) {
+			return
+		}
+		vals := retVals(ret)
+		if len(vals) == 0 || vals[len(vals)-1].Type().String() != "error" || !isNilConst(vals[len(vals)-1]) {
+			return
+		}
+		n++
+		if !onlyWhenNil(g, ret, errVal, true) {
+			structural = false
+		}
+	})
+	if n > 0 && structural {
+		return true
+	}
+	bs := &boolSummer{li: li}
+	paths, ok := bs.summarise(g, map[string]string{}, 0)
+	if !ok || bs.overflow {
+		return false
+	}
+	a, _ := normValueName(errVal, map[string]string{})
+	atom := a + "==nil"
+	nOK := 0
+	for _, p := range paths {
+		if len(p.vals) == 0 {
+			continue
+		}
+		last := p.vals[len(p.vals)-1]
+		for hop := 0; hop < 6; hop++ {
+			if phi, isPhi := last.(*ssa.Phi); isPhi {
+				if e, okE := p.pe[phi]; okE {
+					last = e
+					continue
+				}
+			}
+			break
+		}
+		if !isNilConst(last) {
+			if freshError(last) {
+				continue
+			}
+			// an error value that may be nil: it is this path's verdict only if the path knows it non-nil
+			la, _ := normValueName(last, map[string]string{})
+			if v, known := p.cond[la+"==nil"]; known && !v {
+				continue
+			}
+			if la == a {
+				continue // the step's own error handed up: success exactly when it is nil
+			}
+			return false
+		}
+		if v, known := p.cond[atom]; !known || !v {
+			return false
+		}
+		nOK++
+	}
+	return nOK > 0
+}
+
+// successGatedCtx: site (entered through sctx from the anchor root) is reached only when errVal (in a body entered
+// through ectx) was nil: through every helper between errVal and the body both belong to, success is reported only
+// where the error was nil (gatedBySuccess), and in that common body site lies on the nil side of the helper's error.
+func successGatedCtx(li *LockInfo, root *ssa.Function, errVal ssa.Value, ectx dctx, site ssa.Instruction, sctx dctx) bool {
+	k := 0
+	for k < len(ectx) && k < len(sctx) && ectx[k] == sctx[k] {
+		k++
+	}
+	ev := errVal
+	for lvl := len(ectx); lvl > k; lvl-- {
+		call := ectx[lvl-1]
+		g := helperBody(call)
+		if !gatedBySuccess(li, g, ev) {
+			return false
+		}
+		tup, isT := call.Type().(*types.Tuple)
+		if !isT {
+			if call.Type().String() != "error" {
+				return false
+			}
+			ev = call
+			continue
+		}
+		ex := extractOf(call, tup.Len()-1)
+		if ex == nil || ex.Type().String() != "error" {
+			return false
+		}
+		ev = ex
+	}
+	fk := root
+	if k > 0 {
+		fk = helperBody(ectx[k-1])
+	}
+	s := site
+	if len(sctx) > k {
+		s = sctx[k]
+	}
+	if fk == nil {
+		return false
+	}
+	return onlyWhenNil(fk, s, ev, true)
 }
